@@ -410,14 +410,24 @@ def nilCfgCase (impl : String) : Verdict :=
     and ListenAndServe returns ErrServerShutdown.  (What Serve does on the socket is the scenarios' business; this
     case is about the socket being opened on `Addr` / `Network`, served, and closed.) -/
 def listenCase (impl : String) : Verdict :=
-  let model := "reply=auth=true:code=2:id-matches=true handled=yes pair=2:2 shutdown=nil ret=shutdown"
+  let udp := if (impl.splitOn " udpclose=skipped ").length > 1 then "skipped" else "yes:ctx:nil:shutdown"
+  let model := s!"reply=auth=true:code=2:id-matches=true handled=yes pair=2:2 addrs=2,2,2 udpclose={udp} shutdown=nil ret=shutdown"
   -- `pair=<handlers started>:<authentic replies>`: two peers on one host (same IP, different source ports) send the
   -- same identifier while the first handler is still running; the model keys requests in flight by (source address,
-  -- identifier) (`Server.lean`, `at_most_one_inflight` is per key), so both are served
+  -- identifier) (`Server.lean`, `at_most_one_inflight` is per key; `C06.different_peers_different_keys`), so both are
+  -- served.  `addrs=`: the same through a conn that hands out *net.UDPAddr peers differing in the IPv6 zone only, in the
+  -- port only, in the IP only
   mk impl model [("no_panic", !((impl.splitOn "PANIC").length > 1 || (impl.splitOn "CRASH").length > 1)),
                  ("two_peers_on_one_host_with_the_same_identifier_are_both_served",
-                    (impl.splitOn " pair=").length ≤ 1 || (impl.splitOn " pair=2:2 ").length > 1 || (impl.splitOn " pair=- ").length > 1),
-                 ("listen_and_serve_serves_on_its_address_until_shutdown", impl == model)]
+                    (impl.splitOn " pair=").length ≤ 1 || (impl.splitOn " pair=2:2 addrs=2,2,2 ").length > 1 || (impl.splitOn " pair=- ").length > 1),
+                 -- `udpclose=<listener closed>:<first Shutdown>:<second Shutdown>:<Serve>`: a real *net.UDPConn listener, a
+                 -- handler still running, a Shutdown whose context ends first (`shutdown_closes_listeners` does not wait
+                 -- for the handlers; `ctx_error_only_if_ctx_done`); `skipped` when the loopback request never arrived
+                 ("shutdown_closes_a_udp_listener_while_a_handler_still_runs",
+                    (impl.splitOn " udpclose=").length ≤ 1 || (impl.splitOn " udpclose=yes:ctx:nil:shutdown ").length > 1
+                      || (impl.splitOn " udpclose=skipped ").length > 1),
+                 ("listen_and_serve_serves_on_its_address_until_shutdown",
+                    impl == model)]
 
 /-- `finishes n`: n DIFFERENT requests in flight on one Serve call, their handlers return at the same instant
     (forty rounds): each is served exactly once, nothing crashes (the table of requests in flight is written by n
